@@ -113,6 +113,8 @@ pub fn gen_scenario(rng: &mut Rng, with_eval: bool) -> Scenario {
         pred,
         init_params: None,
         print: if rng.chance(0.3) { Some(rng.pick(&[1i32, 2, 3, 5, 50])) } else { None },
+        // small cases only: k networks cost k times as much
+        sweep: if !scale() && n <= 12 && rng.chance(0.12) { rng.range(2, 4) } else { 0 },
     }
 }
 
@@ -186,6 +188,7 @@ impl Property for C05 {
             "batch_ge_17",
             "group_ge_256",
             "group_ge_256_completes",
+            "sweep_of_networks_in_one_pool",
             "print_some",
             "scale_stratum",
             "width_ge_1024",
